@@ -487,6 +487,16 @@ class DAGRunConcurrentManager(DAGRunManagerLike):
         list_node_ids = self._get_node_order(dag)
 
         if dag.is_recurrent:
+            # A node of the subgraph may still be running: a started node of a failed OneOf candidate is not stopped.
+            # Its execution belongs to the previous iteration; left alone it would run next to the execution of the
+            # new iteration and its outdated result would be taken for the new one.
+            self._stop_coro_tasks(
+                *(
+                    task for task in self._coro_tasks
+                    if task.get_name() in list_node_ids and task is not asyncio.current_task()
+                ),
+            )
+
             logger.debug('Hide previous node results for recurrent subgraph %s', list_node_ids)
             self._node_storage.hide_last_execution(*list_node_ids)
 
